@@ -42,6 +42,13 @@ type spec struct {
 	Result     string            `json:"result,omitempty"` // variable returned at the end of a range / by a bare return
 	ResultType string            `json:"result_type,omitempty"`
 	ConstFiles map[string]string `json:"const_files,omitempty"` // package alias -> file with its constants
+	// Time: read the methods of time.Time / time.Duration arithmetically, instants and durations being integer
+	// nanoseconds on one time line (use "num": "Int"): `a.Add(d)` = a + d, `a.Sub(b)` = a - b, `a.Before(b)` = a < b,
+	// `a.After(b)` = a > b, `time.Until(a)` = a - now, `time.Since(a)` = now - a, `d.Milliseconds()` = d / 10^6
+	// truncated toward zero; `now` is the parameter whose Go text is `time.Now()` (required for Until/Since). The
+	// arithmetic is that of ℤ: Go's Sub/Until/Since saturate at ±2^63 ns (≈ 292 years) and Add wraps there — an
+	// equivalence theorem that must cover such distances has to say so.
+	Time bool `json:"time,omitempty"`
 	// Cond mode: translate the condition of the Nth (default 1st) `if` / `for` statement of the function (at any
 	// depth) whose condition's source text contains Cond. The result is a Bool.
 	Cond string `json:"cond,omitempty"`
@@ -105,6 +112,13 @@ func findFunc(f *ast.File, name string) *ast.FuncDecl {
 			if s, ok := ty.(*ast.StarExpr); ok {
 				ty = s.X
 			}
+			// generic receiver: `func (r *ipRange[V]) contains(…)`
+			switch ix := ty.(type) {
+			case *ast.IndexExpr:
+				ty = ix.X
+			case *ast.IndexListExpr:
+				ty = ix.X
+			}
 			if id, ok := ty.(*ast.Ident); ok {
 				r = id.Name
 			}
@@ -135,6 +149,9 @@ func lookupConst(f *ast.File, name string) ast.Expr {
 }
 
 var timeConsts = map[string]string{"Nanosecond": "1", "Microsecond": "1000", "Millisecond": "1000000", "Second": "1000000000", "Minute": "60000000000", "Hour": "3600000000000"}
+
+// integer limits of package math
+var mathConsts = map[string]string{"MaxInt8": "127", "MaxUint8": "255", "MaxInt16": "32767", "MaxUint16": "65535", "MaxInt32": "2147483647", "MaxUint32": "4294967295", "MaxInt64": "9223372036854775807", "MaxUint64": "18446744073709551615"}
 
 var castMod = map[string]string{"uint8": "256", "byte": "256", "uint16": "65536", "uint32": "4294967296"}
 
@@ -183,6 +200,11 @@ func (t *tr) expr(e ast.Expr) string {
 					return c
 				}
 			}
+			if id.Name == "math" {
+				if c, ok := mathConsts[v.Sel.Name]; ok {
+					return c
+				}
+			}
 			if f := t.pkgFile(id.Name); f != nil {
 				if c := lookupConst(f, v.Sel.Name); c != nil {
 					save := t.file
@@ -227,6 +249,12 @@ func (t *tr) expr(e ast.Expr) string {
 			// conversion to a named integer type of this package (e.g. OpCode(0)): the value itself
 			if len(v.Args) == 1 && ast.IsExported(id.Name) {
 				return t.expr(v.Args[0])
+			}
+		}
+		if sel, ok := v.Fun.(*ast.SelectorExpr); ok && t.sp.Time {
+			// methods of time.Time / time.Duration read arithmetically (see spec.Time)
+			if s := t.timeCall(sel, v.Args); s != "" {
+				return s
 			}
 		}
 		if sel, ok := v.Fun.(*ast.SelectorExpr); ok && len(v.Args) == 1 {
@@ -282,6 +310,41 @@ func (t *tr) expr(e ast.Expr) string {
 	}
 	t.fail("unsupported expression %q", src)
 	return "0"
+}
+
+// timeCall translates a call of a time.Time / time.Duration method or of time.Until / time.Since ("" = not one).
+func (t *tr) timeCall(sel *ast.SelectorExpr, args []ast.Expr) string {
+	if id, ok := sel.X.(*ast.Ident); ok && id.Name == "time" && len(args) == 1 {
+		now := ""
+		for _, p := range t.sp.Params {
+			if p.Go == "time.Now()" {
+				now = p.Lean
+			}
+		}
+		if now == "" {
+			return ""
+		}
+		switch sel.Sel.Name {
+		case "Until":
+			return fmt.Sprintf("(%s - %s)", t.expr(args[0]), now)
+		case "Since":
+			return fmt.Sprintf("(%s - %s)", now, t.expr(args[0]))
+		}
+		return ""
+	}
+	switch {
+	case sel.Sel.Name == "Add" && len(args) == 1:
+		return fmt.Sprintf("(%s + %s)", t.expr(sel.X), t.expr(args[0]))
+	case sel.Sel.Name == "Sub" && len(args) == 1:
+		return fmt.Sprintf("(%s - %s)", t.expr(sel.X), t.expr(args[0]))
+	case sel.Sel.Name == "Before" && len(args) == 1:
+		return fmt.Sprintf("(decide (%s < %s))", t.expr(sel.X), t.expr(args[0]))
+	case sel.Sel.Name == "After" && len(args) == 1:
+		return fmt.Sprintf("(decide (%s > %s))", t.expr(sel.X), t.expr(args[0]))
+	case sel.Sel.Name == "Milliseconds" && len(args) == 0 && t.sp.Num == "Int":
+		return fmt.Sprintf("(Int.tdiv %s 1000000)", t.expr(sel.X))
+	}
+	return ""
 }
 
 func (t *tr) pkgFile(alias string) *ast.File {
@@ -481,6 +544,14 @@ func (t *tr) stmt(ind int, s ast.Stmt) {
 					t.line(ind+1, "pure ()")
 				}
 			}
+		}
+	case *ast.BranchStmt:
+		// a fragment taken from a loop body (deep mode) is ONE iteration as a function of the variables before it:
+		// `continue` ends the iteration with the current value of the result variable
+		if v.Tok == token.CONTINUE && v.Label == nil && t.sp.Deep && t.sp.Result != "" {
+			t.line(ind, "return "+t.sp.Result)
+		} else {
+			t.fail("unsupported statement %q", text(s))
 		}
 	case *ast.ReturnStmt:
 		switch len(v.Results) {
